@@ -83,9 +83,9 @@ theorem ensembleMean_scaleCols (c : Rat) (n : Nat) (members : List (List Sig)) :
   exact colOr_scaleCols c n r j
 
 /-- `_sift_with_noise` commutes with a common factor on signal, noise amplitude and sift -/
-theorem siftWithNoise_scale (S : Sig → List Sig) (c : Rat) (hS : ∀ y, S (Sig.smul c y) = scaleCols c (S y))
+theorem siftWithNoise_scale (S S' : Sig → List Sig) (c : Rat) (hS : ∀ y, S' (Sig.smul c y) = scaleCols c (S y))
     (mode : Mode) (s : Rat) (x ν : Sig) :
-    siftWithNoise S mode (some (c * s)) (Sig.smul c x) ν = scaleCols c (siftWithNoise S mode (some s) x ν) := by
+    siftWithNoise S' mode (some (c * s)) (Sig.smul c x) ν = scaleCols c (siftWithNoise S mode (some s) x ν) := by
   have hν : Sig.smul (c * s) ν = Sig.smul c (Sig.smul s ν) := (smul_smul c s ν).symm
   cases mode with
   | single =>
@@ -96,9 +96,9 @@ theorem siftWithNoise_scale (S : Sig → List Sig) (c : Rat) (hS : ∀ y, S (Sig
     rw [hν, smul_add, smul_sub, hS, hS, length_smul', flipMean_scaleCols]
 
 /-- the same with the noise handed over unscaled (`noise_scaling=None`, complete ensemble) -/
-theorem siftWithNoise_scale_none (S : Sig → List Sig) (c : Rat) (hS : ∀ y, S (Sig.smul c y) = scaleCols c (S y))
+theorem siftWithNoise_scale_none (S S' : Sig → List Sig) (c : Rat) (hS : ∀ y, S' (Sig.smul c y) = scaleCols c (S y))
     (mode : Mode) (x ν : Sig) :
-    siftWithNoise S mode none (Sig.smul c x) (Sig.smul c ν) = scaleCols c (siftWithNoise S mode none x ν) := by
+    siftWithNoise S' mode none (Sig.smul c x) (Sig.smul c ν) = scaleCols c (siftWithNoise S mode none x ν) := by
   cases mode with
   | single =>
     simp only [siftWithNoise]
@@ -107,18 +107,18 @@ theorem siftWithNoise_scale_none (S : Sig → List Sig) (c : Rat) (hS : ∀ y, S
     simp only [siftWithNoise]
     rw [smul_add, smul_sub, hS, hS, length_smul', flipMean_scaleCols]
 
-theorem ensembleSift_scale (σ : Schedule) (p : Nat) (draw : ρ → Sig × ρ) (g : ρ) (S : Sig → List Sig) (c : Rat)
-    (hS : ∀ y, S (Sig.smul c y) = scaleCols c (S y)) (mode : Mode) (N : Nat) (s : Rat) (x : Sig) (hσ : σ.Valid N p) :
-    ensembleSift σ draw g S mode N (c * s) (Sig.smul c x) = scaleCols c (ensembleSift σ draw g S mode N s x) := by
+theorem ensembleSift_scale (σ : Schedule) (p : Nat) (draw : ρ → Sig × ρ) (g : ρ) (S S' : Sig → List Sig) (c : Rat)
+    (hS : ∀ y, S' (Sig.smul c y) = scaleCols c (S y)) (mode : Mode) (N : Nat) (s : Rat) (x : Sig) (hσ : σ.Valid N p) :
+    ensembleSift σ draw g S' mode N (c * s) (Sig.smul c x) = scaleCols c (ensembleSift σ draw g S mode N s x) := by
   unfold ensembleSift
-  rw [ensembleTrace_eq σ p draw g S mode N (c * s) _ hσ, ensembleTrace_eq σ p draw g S mode N s x hσ,
+  rw [ensembleTrace_eq σ p draw g S' mode N (c * s) _ hσ, ensembleTrace_eq σ p draw g S mode N s x hσ,
     length_smul', ← ensembleMean_scaleCols]
   simp only [List.map_map]
   congr 1
   apply List.map_congr_left
   intro i _
   simp only [Function.comp]
-  exact siftWithNoise_scale S c hS mode s x _
+  exact siftWithNoise_scale S S' c hS mode s x _
 
 /-! ### complete ensemble -/
 
@@ -131,7 +131,7 @@ theorem stageImf_scale (F : Sig → Sig) (c : Rat) (hF : ∀ y, F (Sig.smul c y)
   apply List.map_congr_left
   intro ν _
   simp only [Function.comp]
-  rw [siftWithNoise_scale_none (fun y => [F y]) c (fun y => by simp [scaleCols, hF]) mode proto ν, colOr_scaleCols]
+  rw [siftWithNoise_scale_none (fun y => [F y]) (fun y => [F y]) c (fun y => by simp [scaleCols, hF]) mode proto ν, colOr_scaleCols]
 
 theorem noiseResidual_scale (Fn : Sig → Sig) (c : Rat) (hFn : ∀ y, Fn (Sig.smul c y) = Sig.smul c (Fn y)) (ν : Sig) :
     noiseResidual Fn (Sig.smul c ν) = Sig.smul c (noiseResidual Fn ν) := by
